@@ -362,3 +362,5 @@ FINDINGS = []
 SUBS = [
     Sub("history", lambda tier: histories(tier), check_history, quick=2400, thorough=6000),
 ]
+
+RULE += ' Also: multi-member collection copies (every copied member observed), collection.create, sums of two copies grown in opposite directions (add_grown).'
